@@ -78,11 +78,11 @@ func (m *Module) ghostAttempt(w *engine.World, op *engine.Op) {
 	case "mint":
 		var a mintArgs
 		op.Decode(&a)
-		denom = a.Denom
+		denom, symbol = a.Denom, a.Symbol
 	case "burn":
 		var a burnArgs
 		op.Decode(&a)
-		denom = a.Denom
+		denom, symbol = a.Denom, a.Symbol
 	case "to_erc20":
 		var a toErcArgs
 		op.Decode(&a)
@@ -143,8 +143,8 @@ func (m *Module) ghostAccepted(w *engine.World, kind, what, id string, signer st
 // checkGhostSupply: coins of a min unit no token declares must not exist.
 func (m *Module) checkGhostSupply(w *engine.World) {
 	for _, d := range engine.SortedKeys(m.ghostMin) {
-		if m.byMin[d] != nil {
-			continue
+		if m.byMin[d] != nil || m.phantomDenom[d] {
+			continue // declared, or paid out by a fee swap that was reported under its own C10 key
 		}
 		w.Hit("C09.ghost_supply_checks")
 		if s := w.Ledger.GetSupply(d); s.Sign() != 0 {
@@ -158,6 +158,11 @@ func (m *Module) checkGhostSupply(w *engine.World) {
 // (or of the same min unit under another symbol) and operations naming the ghost.
 func (m *Module) genGhostMaker(w *engine.World, r *engine.Rand) *engine.TxPlan {
 	nAct := len(w.Actors) - 1
+	if r.Bool(0.5) {
+		if tp := m.genPayoutGhost(w, r); tp != nil {
+			return tp
+		}
+	}
 	var free []poolTok
 	for _, p := range m.cfg.Pool {
 		if m.toks[p.Symbol] == nil && m.byMin[p.MinUnit] == nil && m.toks[altSymbol(p.MinUnit)] == nil && m.byMin[altMinUnit(p.Symbol)] == nil {
@@ -330,4 +335,68 @@ func minInt(a, b int) int {
 		return a
 	}
 	return b
+}
+
+// genPayoutGhost aims at the pay-out token of a configured fee-token swap that is not issued
+// yet: one doomed transaction issues it with ANOTHER scale, swaps into it and fails; then the
+// token is really issued with the pool's scale and swaps follow. Whatever the module
+// remembered of the discarded token (its scale, its existence) shows in those swaps.
+func (m *Module) genPayoutGhost(w *engine.World, r *engine.Rand) *engine.TxPlan {
+	nAct := len(w.Actors) - 1
+	type cand struct {
+		pair pairCfg
+		out  poolTok
+	}
+	var cands []cand
+	for _, pr := range m.cfg.Pairs {
+		if m.byMin[pr.In] == nil || m.byMin[pr.Out] != nil {
+			continue
+		}
+		for _, p := range m.cfg.Pool {
+			if p.MinUnit == pr.Out && m.toks[p.Symbol] == nil {
+				cands = append(cands, cand{pr, p})
+			}
+		}
+	}
+	if len(cands) == 0 {
+		return nil
+	}
+	c := cands[r.Intn(len(cands))]
+	actor := m.holder(w, r, c.pair.In)
+	if w.Bal(w.A(actor).Addr.String(), c.pair.In).Sign() == 0 {
+		return nil
+	}
+	other := (c.out.Scale + 1 + uint32(r.Intn(maxScale))) % (maxScale + 1)
+	issue := func(scale uint32) *engine.Op {
+		return engine.NewOp(Name, "issue", actor, issueArgs{Symbol: c.out.Symbol, MinUnit: c.out.MinUnit, Name: "token " + c.out.Symbol[:3],
+			Scale: scale, Initial: "1000", Max: strconv.FormatUint(maxU64, 10), Mintable: true})
+	}
+	swap := func(who int) *engine.Op {
+		have := w.Bal(w.A(who).Addr.String(), c.pair.In)
+		amt := m.amountNear(r, new(big.Int).Rsh(have, uint(20+r.Intn(40))), m.byMin[c.pair.In].Scale)
+		return engine.NewOp(Name, "feeswap", who, feeSwapArgs{Denom: c.pair.In, Amount: amt.String()})
+	}
+	at := w.Height + 2 + int64(r.Intn(2))
+	first := &engine.TxPlan{Ops: []*engine.Op{issue(other), swap(actor),
+		engine.NewOp(Name, "burn", actor, burnArgs{Denom: stake, Amount: new(big.Int).Lsh(big.NewInt(1), 140).String()})}}
+	first.At, first.NoOOG = at, true
+	plan := func(op *engine.Op, dh int64) {
+		tp := engine.Tx1(op)
+		tp.At, tp.NoOOG = at+dh, true
+		m.planned = append(m.planned, tp)
+	}
+	if r.Bool(0.3) {
+		plan(swap(actor), 1) // before the token exists: must fail
+	}
+	plan(issue(c.out.Scale), 1+int64(r.Intn(2)))
+	for i, k := 0, 1+r.Intn(3); i < k; i++ {
+		who := actor
+		if r.Bool(0.4) {
+			who = m.holder(w, r, c.pair.In)
+		}
+		plan(swap(who), 3+int64(i))
+	}
+	_ = nAct
+	w.Hit("token.ghost_payout_planned")
+	return first
 }
